@@ -16,9 +16,11 @@ import (
 	evmtypes "github.com/evmos/evmos/v19/x/evm/types"
 
 	sdkvesting "github.com/cosmos/cosmos-sdk/x/auth/vesting/types"
+	stakingtypes "github.com/cosmos/cosmos-sdk/x/staking/types"
 	ibcante "github.com/cosmos/ibc-go/v7/modules/core/ante"
 	ibckeeper "github.com/cosmos/ibc-go/v7/modules/core/keeper"
 	oracletypes "github.com/settlus/chain/x/oracle/types"
+	settlementtypes "github.com/settlus/chain/x/settlement/types"
 )
 
 // HandlerOptions defines the list of module keepers required to run the Settlus
@@ -97,6 +99,16 @@ func newCosmosAnteHandler(options HandlerOptions) sdk.AnteHandler {
 		cosmosante.NewAuthzLimiterDecorator( // disable the Msg types that cannot be included on an authz.MsgExec msgs field
 			sdk.MsgTypeURL(&evmtypes.MsgEthereumTx{}),
 			sdk.MsgTypeURL(&sdkvesting.MsgCreateVestingAccount{}), // Settlus do not support vesting accounts
+			// msgs the generic ante chain rejects at the top level must not be reachable through authz either
+			sdk.MsgTypeURL(&stakingtypes.MsgCreateValidator{}),
+			sdk.MsgTypeURL(&settlementtypes.MsgRecord{}),
+			sdk.MsgTypeURL(&settlementtypes.MsgCancel{}),
+			sdk.MsgTypeURL(&settlementtypes.MsgCreateTenant{}),
+			sdk.MsgTypeURL(&settlementtypes.MsgCreateTenantWithMintableContract{}),
+			sdk.MsgTypeURL(&settlementtypes.MsgAddTenantAdmin{}),
+			sdk.MsgTypeURL(&settlementtypes.MsgRemoveTenantAdmin{}),
+			sdk.MsgTypeURL(&settlementtypes.MsgUpdateTenantPayoutPeriod{}),
+			sdk.MsgTypeURL(&settlementtypes.MsgDepositToTreasury{}),
 			// oracle msgs are authorized by the oracle ante handler only, so they cannot be granted or wrapped
 			sdk.MsgTypeURL(&oracletypes.MsgPrevote{}),
 			sdk.MsgTypeURL(&oracletypes.MsgVote{}),
